@@ -91,6 +91,7 @@ type tlcOpts struct {
 	depth           int
 	deque           bool // depth-first queue (trace validation with branching)
 	expectViolation bool
+	timeoutOK       bool // a timeout is reported in the result instead of being an infrastructure error
 }
 
 type tlcResult struct {
@@ -102,7 +103,9 @@ type tlcResult struct {
 	violated  []string // names of violated invariants / properties
 	errors    []string
 	prints    []string // other PrintT lines
-	ok        bool     // "No error has been found" or simulation ended without error
+	discards  int      // number of "DISCARD ..." lines
+	timedOut  bool
+	ok        bool // "No error has been found" or simulation ended without error
 	wall      float64
 }
 
@@ -139,10 +142,13 @@ func (c *checkCtx) specDir() string {
 
 // tlc runs TLC on module with config cfg (a file name in /verif/spec, or literal text containing a newline).
 func (c *checkCtx) tlc(module, cfg string, o tlcOpts) *tlcResult {
+	tlcMu.Lock()
 	tlcSeq++
+	seq := tlcSeq
 	dir := c.specDir()
+	tlcMu.Unlock()
 	if strings.Contains(cfg, "\n") {
-		name := fmt.Sprintf("gen%d.cfg", tlcSeq)
+		name := fmt.Sprintf("gen%d.cfg", seq)
 		_ = os.WriteFile(filepath.Join(dir, name), []byte(cfg), 0o644)
 		cfg = name
 	}
@@ -152,7 +158,7 @@ func (c *checkCtx) tlc(module, cfg string, o tlcOpts) *tlcResult {
 	if o.timeout == 0 {
 		o.timeout = 20 * time.Minute
 	}
-	meta := filepath.Join(c.work, fmt.Sprintf("meta%d", tlcSeq))
+	meta := filepath.Join(c.work, fmt.Sprintf("meta%d", seq))
 	args := []string{"-XX:+UseParallelGC", "-Xss512m"}
 	if o.deque {
 		args = append(args, "-Dtlc2.tool.queue.IStateQueue=StateDeque")
@@ -173,7 +179,7 @@ func (c *checkCtx) tlc(module, cfg string, o tlcOpts) *tlcResult {
 	for k, v := range o.env {
 		cmd.Env = append(cmd.Env, k+"="+v)
 	}
-	res := &tlcResult{outFile: filepath.Join(c.work, fmt.Sprintf("tlc%d.out", tlcSeq))}
+	res := &tlcResult{outFile: filepath.Join(c.work, fmt.Sprintf("tlc%d.out", seq))}
 	outF, err := os.Create(res.outFile)
 	if err != nil {
 		infra("%v", err)
@@ -202,7 +208,7 @@ func (c *checkCtx) tlc(module, cfg string, o tlcOpts) *tlcResult {
 						res.errors = append(res.errors, "cannot unquote CASE line: "+uerr.Error())
 					} else {
 						if casesW == nil {
-							res.cases = filepath.Join(c.work, fmt.Sprintf("cases%d.ndjson", tlcSeq))
+							res.cases = filepath.Join(c.work, fmt.Sprintf("cases%d.ndjson", seq))
 							casesF, _ = os.Create(res.cases)
 							casesW = bufio.NewWriterSize(casesF, 1<<20)
 						}
@@ -221,6 +227,8 @@ func (c *checkCtx) tlc(module, cfg string, o tlcOpts) *tlcResult {
 						res.errors = append(res.errors, s)
 					} else if strings.Contains(s, "No error has been found") {
 						res.ok = true
+					} else if strings.HasPrefix(s, "\"DISCARD") {
+						res.discards++
 					} else if strings.HasPrefix(s, "\"") || strings.HasPrefix(s, "<<") {
 						if len(res.prints) < 200 {
 							res.prints = append(res.prints, s)
@@ -244,15 +252,23 @@ func (c *checkCtx) tlc(module, cfg string, o tlcOpts) *tlcResult {
 	}
 	res.wall = time.Since(t0).Seconds()
 	_ = os.RemoveAll(meta)
+	tlcMu.Lock()
+	defer tlcMu.Unlock()
 	c.states += res.distinct
 	c.transitions += res.generated
 	run := map[string]J{"module": module, "config": cfg, "generated": res.generated, "distinct": res.distinct, "cases": res.ncases, "wall_s": round1(res.wall)}
 	if o.simulate != "" {
 		run["mode"] = "simulate " + o.simulate
 	}
-	c.tlcRuns = append(c.tlcRuns, run)
+	if len(c.tlcRuns) < 40 {
+		c.tlcRuns = append(c.tlcRuns, run)
+	}
 	if o.simulate != "" && len(res.errors) == 0 && len(res.violated) == 0 {
 		res.ok = true // simulation ends by reaching num=; TLC prints no "No error" line
+	}
+	if time.Since(t0) >= o.timeout && o.timeoutOK {
+		res.timedOut = true
+		return res
 	}
 	if time.Since(t0) >= o.timeout {
 		infra("TLC timed out after %s on %s/%s", o.timeout, module, cfg)
